@@ -200,11 +200,19 @@ def gen_numeric(tier, rnd):
                 for u in units:
                     ctx = rnd.choice(['alone', 'after', 'paren'])
                     lines.append(prim_request('C', kw, [sp + u], ctx, ' ' + hx('/dev/x')))
+    # every letter (and some punctuation) as a would-be unit suffix, with small and huge counts:
+    # a suffix is either a documented unit (exact product) or the argument is rejected
+    import string
+    for kw, kind in NUMERIC.items():
+        for sfx in list(string.ascii_letters) + ['%', '.', '_', 'kb', 'KB', 'ki', 'mi', 'wk', 'yr']:
+            for v in [1, 7, 365, 2 ** 63, 2 ** 64 - 1, 2635249153387078803, 10 ** 19, 3 * 10 ** 18]:
+                for sign in ['', '+', '-'] if kind != 'u32' else ['']:
+                    lines.append(prim_request('C', kw, [sign + str(v) + sfx], 'alone', ' ' + hx('/dev/x')))
     if tier != 'quick':
         for _ in range(100000):
             kw = rnd.choice(list(NUMERIC))
             lines.append(prim_request('C', kw, rand_member(NUMERIC[kw], rnd), rnd.choice(CTX), ' ' + hx('/dev/x')))
-    return lines, {'rule': 'every numeric primary (%d) x decimal strings around 0, 2^31, 2^32, 2^63, 2^64 and 2^64/unit for every unit (+-2), 10^20, 10^39, leading zeros, signs, every unit suffix, plus random values; parse + compile + render, debug and release; non-trivial = every request'
+    return lines, {'rule': 'every numeric primary (%d) x every letter as a would-be unit suffix x small and huge counts; x decimal strings around 0, 2^31, 2^32, 2^63, 2^64 and 2^64/unit for every unit (+-2), 10^20, 10^39, leading zeros, signs, every unit suffix, plus random values; parse + compile + render, debug and release; non-trivial = every request'
                    % len(NUMERIC), 'streams': {'numeric': len(lines)}}
 
 
@@ -291,6 +299,12 @@ def gen_errors(tier, rnd):
                 text = ' '.join(pre + [kw])
                 lines.append('P %s #kind=%s #kw=%s #word=%s' % (hx(text), k, hx(kw), hx('')))
                 if kind in ('wordword', 'wordformat'):
+                    # first argument present, second missing: at end of input, before a trailing blank, before ')' (glued or not)
+                    for first in ['a', 'user.a', "'o ut'", '"x y"']:
+                        for tail, wrap in [('', False), (' ', False), ('', True), (' ', True)]:
+                            body = ' '.join(pre + [kw, first]) + tail
+                            text = ('( ' + body + ')') if wrap else body
+                            lines.append('P %s #kind=%s #kw=%s #word=%s' % (hx(text), k, hx(kw), hx('')))
                     continue
                 for bad in bads:
                     for npost in range(0, 3):
@@ -306,7 +320,7 @@ def gen_errors(tier, rnd):
         ws.insert(pos, w)
         word = w[1:-1] if w[0] in '\'"' else w
         lines.append('P %s #kind=unknown #word=%s' % (hx(' '.join(ws)), hx(word)))
-    return lines, {'rule': 'every argument-taking keyword x (end of input | words invalid from their first character) after 0..3 valid primaries and before 0..2, plus unknown words (bare and quoted) at random positions; non-trivial = every request',
+    return lines, {'rule': 'every argument-taking keyword x (end of input | words invalid from their first character | for two-argument primaries: first argument present and second missing at end of input, before a blank, before a glued or spaced closing parenthesis) after 0..3 valid primaries and before 0..2, plus unknown words (bare and quoted) at random positions; non-trivial = every request',
                    'streams': {'errors': len(lines)}}
 
 
@@ -381,11 +395,19 @@ def gen_options(tier, rnd):
             base = ['-true']
         opts = 'any' if anyflag else '%d_%s' % (1 if depth else 0, threads if threads is not None else '-')
         lines.append('P %s #grp=o%d #role=base' % (hx(' '.join(base)), g))
+        def layout(ws):
+            # parentheses may lose their inner blanks, gaps may be any blank run
+            t = ' '.join(ws)
+            if rnd.random() < 0.5:
+                t = t.replace('( ', '(').replace(' )', ')')
+            if rnd.random() < 0.3:
+                t = t.replace(' ', rnd.choice(['  ', '\t', ' \n']))
+            return t
         if anyflag:
-            lines.append('P %s #role=var #opts=%s' % (hx(' '.join(variant)), opts))
+            lines.append('P %s #role=var #opts=%s' % (hx(layout(variant)), opts))
         else:
-            lines.append('P %s #grp=o%d #role=var #opts=%s' % (hx(' '.join(variant)), g, opts))
-    return lines, {'rule': '%d random well-formed expressions, each with 0..4 options (-depth, -threads N with repeated different values, -maxdepth/-mindepth N) inserted at random word boundaries (front, middle, inside parentheses, after !), paired with the same expression where the leading options are dropped and every other option is -true; non-trivial = pairs with at least one option' % n,
+            lines.append('P %s #grp=o%d #role=var #opts=%s' % (hx(layout(variant)), g, opts))
+    return lines, {'rule': '%d random well-formed expressions, each with 0..4 options (-depth, -threads N with repeated different values, -maxdepth/-mindepth N) inserted at random word boundaries (front, middle, inside parentheses, after !, directly before a glued closing parenthesis, with varied blank runs), paired with the same expression where the leading options are dropped and every other option is -true; non-trivial = pairs with at least one option' % n,
                    'streams': {'options': len(lines)}}
 
 
@@ -395,7 +417,7 @@ QUOTABLE = [('-name', ['x', 'foo.txt', 'a b', "it's", 'say"hi', 'x*', 'é', 'dir
             ('-path', ['./a', 'd/e f', 'C:\\tmp\\']), ('-iname', ['Q']),
             ('-pool', ['p1']), ('-xattr', ['user.a']), ('-fprint', ['out', 'o ut']), ('-perm', ['u+x', '644', '-g=w', '/a+r']),
             ('-printf', ['%p\\n', 'a b%s', '%%', '%p\\', 'a\\\\'])]
-PLAIN = ['-true', '-false', '-empty', '-uid 5', '-size +1k', '-type f,d', '-print', '-print0', '-quit', '-amin -5', '-links 2']
+PLAIN = ['-true', '-false', '-empty', '-uid 5', '-size +1k', '-type f,d', '-print', '-print0', '-quit', '-amin -5', '-links 2', '-print-file-fid']
 
 
 def rand_layout_tree(rnd, depth):
@@ -538,6 +560,12 @@ def gen_totality(tier, rnd):
             if NUMERIC[kw] == 'size':
                 for u in SIZE_UNITS:
                     add('%s %d%s' % (kw, v, u))
+    import string
+    for kw in NUMERIC:
+        for sfx in string.ascii_letters:
+            for v in [2 ** 64 - 1, 2635249153387078803, 7]:
+                add('%s +%d%s' % (kw, v, sfx))
+                add('%s -%d%s' % (kw, v, sfx))
     for k in range(1, 65):
         add('( ' * k + '-true' + ' )' * k)
         add('(' * k + '-true' + ')' * k)
@@ -570,5 +598,5 @@ def gen_totality(tier, rnd):
     for c in classes + ['"', '\\', '~', '\n']:
         for shape in ['/dev/' + c, c, '/dev/a' + c + 'b']:
             lines.append('C %s %s' % (hx('-name x'), hx(shape)))
-    return lines, {'rule': 'grammar-aware valid corpus (%d inputs), every prefix and random single-character substitutions/insertions/deletions from a hostile alphabet, exhaustive argument strings of length <=%d over a 20-symbol alphabet after each argument-taking keyword, numeric boundaries with every unit, nesting ladders to depth 64, every string site x 16 Unicode classes (C0/DEL/C1 controls, 1..4-byte characters, separators, noncharacters) x 5 positions, octal escapes 0200..0237, hostile device paths, 15..300 distinct matchers/destinations in framed and plain mode; parse + compile + render; debug and release; non-trivial = at least two words'
+    return lines, {'rule': 'grammar-aware valid corpus (%d inputs), every prefix and random single-character substitutions/insertions/deletions from a hostile alphabet, exhaustive argument strings of length <=%d over a 20-symbol alphabet after each argument-taking keyword, numeric boundaries with every unit and with every letter as a would-be unit, nesting ladders to depth 64, every string site x 16 Unicode classes (C0/DEL/C1 controls, 1..4-byte characters, separators, noncharacters) x 5 positions, octal escapes 0200..0237, hostile device paths, 15..300 distinct matchers/destinations in framed and plain mode; parse + compile + render; debug and release; non-trivial = at least two words'
                    % (len(corpus), maxarg), 'streams': {'totality': len(lines)}}
